@@ -53,7 +53,20 @@ pub struct Rw {
     pub pos: usize,
 }
 
-const TOKEN_ELEMENTS: [&str; 13] = ["capability", "session-id", "load-error-count", "error-type", "error-tag", "error-severity", "family", "choice-ident", "address", "choice-value", "bad-element", "error-app-tag", "name"];
+const TOKEN_ELEMENTS: [&str; 12] = ["capability", "session-id", "load-error-count", "error-type", "error-tag", "error-severity", "family", "choice-ident", "address", "choice-value", "bad-element", "error-app-tag"];
+
+/// positions of the `<name>` leaves of `<term>` elements (an enumeration-like token: inet / inet6); the name of a
+/// policy-statement is a free string, whitespace included
+fn term_name_positions(node: &Node, next: &mut usize, parent_is_term: bool, out: &mut Vec<usize>) {
+    let me = *next;
+    *next += 1;
+    if parent_is_term && node.name == "name" {
+        out.push(me);
+    }
+    for c in &node.children {
+        term_name_positions(c, next, node.name == "term", out);
+    }
+}
 
 /// equivalent spellings of the XML declaration of a UTF-8 document
 const DECLS: [&str; 6] = [
@@ -78,6 +91,8 @@ fn index(node: &Node, next: &mut usize, out: &mut Vec<(usize, *const Node)>) {
 pub fn applicable(root: &Node) -> Vec<Rw> {
     let mut nodes = Vec::new();
     index(root, &mut 0, &mut nodes);
+    let mut term_names = Vec::new();
+    term_name_positions(root, &mut 0, false, &mut term_names);
     // Decl: `pos` selects the spelling of the declaration (see DECLS)
     let mut out = vec![Rw { kind: Kind::CommentOutside, pos: 0 }, Rw { kind: Kind::WsOutside, pos: 0 }];
     out.extend((0..DECLS.len()).map(|pos| Rw { kind: Kind::Decl, pos }));
@@ -98,7 +113,7 @@ pub fn applicable(root: &Node) -> Vec<Rw> {
             out.push(Rw { kind: Kind::CommentFirst, pos });
             out.push(Rw { kind: Kind::CommentLast, pos });
         }
-        if n.children.is_empty() && !n.text.is_empty() && TOKEN_ELEMENTS.contains(&n.name.as_str()) {
+        if n.children.is_empty() && !n.text.is_empty() && (TOKEN_ELEMENTS.contains(&n.name.as_str()) || term_names.contains(&pos)) {
             out.push(Rw { kind: Kind::WsText, pos });
             out.push(Rw { kind: Kind::CommentInText, pos });
             out.push(Rw { kind: Kind::CharRef, pos });
@@ -480,5 +495,5 @@ pub fn run(report: &mut Report) {
     report.set("distinct_nontrivial", distinct.len() as u64);
     report.set("rewrites_applied_by_kind", json!(per_kind));
     report.set("exhaustive", true);
-    report.set("rule", "seeds: hellos, every reply type (ok, data, bare, load results, rpc-errors with all leaves), get-config data for both agent readers, accepted and rejected ones; rewrites: namespace prefix instead of default namespace (per declaration), whitespace between elements, whitespace around token-valued text (element and policy / term names included), a comment / a numeric character reference / a CDATA section inside a token-valued leaf, comments (first/last child, outside the root), another prefix for a namespace bound with xmlns:p (declaration and uses), xmlns:p declarations hoisted to the root element, attribute order, quote style, XML declaration, <x/> vs <x></x>; every applicable (rewrite, position) singly and in pairs; distinct = distinct rewritten documents; oracle: same acceptance and same Debug value as the seed");
+    report.set("rule", "seeds: hellos, every reply type (ok, data, bare, load results, rpc-errors with all leaves), get-config data for both agent readers, accepted and rejected ones; rewrites: namespace prefix instead of default namespace (per declaration), whitespace between elements, whitespace around token-valued text (term names included; policy names are strings), a comment / a numeric character reference / a CDATA section inside a token-valued leaf, comments (first/last child, outside the root), another prefix for a namespace bound with xmlns:p (declaration and uses), xmlns:p declarations hoisted to the root element, attribute order, quote style, XML declaration, <x/> vs <x></x>; every applicable (rewrite, position) singly and in pairs; distinct = distinct rewritten documents; oracle: same acceptance and same Debug value as the seed");
 }
